@@ -5,6 +5,11 @@ ENGINES = [
 NOTES = 'All checks are runtime monitors over executions of the real headers; verdicts are "held on what was observed". See DESIGN.md.'
 NOT_YET = {}
 CHECK_TEXT = {
+    'C01': {'technique': 'runtime monitoring: shadow-model monitor (mapping registry, live-interval map, header range, alignment, stable size) on every block returned in seeded and bounded-exhaustive histories over 13 policy configurations, under ASan+UBSan'},
+    'C02': {'technique': 'runtime monitoring: per-block pattern monitor + realloc/free semantic checks + per-class footprint invariant after every operation of seeded histories, under ASan+UBSan'},
+    'C03': {'technique': 'runtime monitoring: policy-callback protocol monitor (map/unmap registry, page-counter deltas, byte-accurate poison shadow) with poison state forwarded to ASan so pool accesses to poisoned bytes are sanitizer reports'},
+    'C04': {'technique': 'fault injection: enumerate every Policy::map attempt of fixed histories (singles; pairs and bursts in thorough) and fail it, with the C01-C03 monitors armed', 'engine': 'E4'},
+    'C09': {'technique': 'runtime monitoring: differential monitor against std::map (addresses, (key,version) contents, ordered iteration) over all arrival orders of adversarial key sets and random histories, under ASan+UBSan'},
     'C07': {'technique': 'runtime monitoring: brute-force overlap oracle over the reference multiset for every query of bounded-exhaustive and random insert/remove histories, under ASan+UBSan'},
     'C08': {'technique': 'runtime monitoring: reference-multiset monitor on top()/empty()/pop()/remove() after every operation + verified drain, bounded-exhaustive and random histories, under ASan+UBSan'},
     'C06': {'technique': 'runtime monitoring: structural-invariant + reference-order monitor through the public navigation API after every insert/remove of bounded-exhaustive and random histories, under ASan+UBSan'},
